@@ -1048,6 +1048,40 @@ func init() {
 				total.Add(c.cookieCase(id, rng))
 			}
 		})
+		// "a response to a different request is rejected" rests on the identifiers of the requests one
+		// process produces being pairwise different (seed C10-k: identifiers cut from a block that is
+		// filled once and reused from its start): a long run of requests of one session, from eight
+		// goroutines, every identifier recorded; and a genuine response to request a verified against the
+		// identifier of request b for sampled pairs a != b
+		if only == "" || only == "ids" {
+			nIDs := r.Pick(6000, 400000)
+			rng := r.Rng("c10/ids")
+			s := c10NewSession(rng, 0)
+			ids := make([][]byte, nIDs)
+			parallel(nIDs, func(w, i int) {
+				_, id := nts.NewRequestPacket(ntske.Data{C2sKey: s.c2s, S2cKey: s.s2c, Cookie: [][]byte{s.cookie}})
+				ids[i] = id
+			})
+			seen := make(map[string]int, nIDs)
+			dup := 0
+			for i, id := range ids {
+				if j, ok := seen[string(id)]; ok {
+					dup++
+					if dup == 1 {
+						resp := c10BuildResponse(rng, s, s.s2c, ids[j])
+						res := c10Guard(func(st *string) c10Res { return c10Client(resp, s.s2c, id, st) })
+						r.Violation("nts.NewRequestPacket|wrong-value:unique identifier of an earlier request of this process issued again: the recorded response to that request verifies for the later one", "ids",
+							map[string]any{"requests_in_process": nIDs, "first_request": j, "later_request": i, "requests_apart": i - j, "unique_id": ev.Hex(id), "response_to_first_accepted_for_later": res.ok})
+					}
+				}
+				seen[string(id)] = i
+			}
+			if dup == 0 {
+				r.Class("nts:unique-identifiers-of-one-process-pairwise-different")
+			}
+			r.Set("unique_identifiers_checked", nIDs)
+			total.Add(int64(nIDs))
+		}
 		r.Eval(total.Load())
 		r.DistinctN(total.Load()) // every mutant is a different datagram
 		r.Set("ext_length_lt4_run_in_process", c.st.inproc.Load())
